@@ -1,7 +1,7 @@
 CONSTANTS
   Source = "tables"
   Scale = "small"
-  Reader = "asis"
+  Reader = "repaired"
 INIT Init
 NEXT Next
 INVARIANT Convergent
